@@ -73,7 +73,7 @@ CFG = {
                      "= effort (uniform-efficiency teams), no further slot, team members booked for the same instants, one candidate set"),
     "C04": dict(files=["Properties/C04.lean"], oracles=("C04",),
                 knobs=[(2, Knobs(envelope="asap", p_dep=0.85, p_gap=0.6, p_glen=0.6, p_onstart=0.25, p_container=0.5, p_prec=0.25, p_pin=0.25, aligned_only=False)),
-                       (1, Knobs(envelope="alap", p_dep=0.85, p_gap=0.6, p_container=0.5, p_prec=0.25)),
+                       (1, Knobs(envelope="alap", p_dep=0.85, p_gap=0.6, p_onstart=0.15, p_container=0.5, p_prec=0.25)),
                        (1, Knobs(envelope="alap", max_tasks=6, p_twin=0.7, p_container=0.85, p_dep=0.85, p_gap=0.5, dur_weeks=[3, 4])),
                        # three nesting levels, dependencies mostly on the containers: inherited edges of outer containers
                        (1, Knobs(envelope="asap", max_tasks=7, p_container=0.9, p_inner=0.85, p_dep=0.6, p_gap=0.6, p_glen=0.5, dur_weeks=[3, 4]))],
